@@ -20,4 +20,5 @@ for d in props/*/; do
     build go build -o .build/bin/$id ./$d
   fi
 done
+for d in props/*/; do id=$(basename $d); [ -f $d/RACE ] && go build -race -o .build/bin/$id-race ./$d/race; done
 echo setup ok
